@@ -675,7 +675,7 @@ func runC17(w *World, r *Report) {
 	}
 
 	// ---- parallel-protocol
-	r.Rule("C17.parallel-protocol", "wg.Add before spawn; Done registered before the recover handler; panic recorded; own task pointer; caller's ctx; Wait before return", 6)
+	r.Rule("C17.parallel-protocol", "wg.Add before spawn; Done registered before the recover handler; panic recorded; own task pointer; caller's ctx; Wait before return; the dispatcher itself never blocks", 7)
 	{
 		ctxP := prt.Params[0]
 		tasksP := prt.Params[paramIndex(prt, "tasks")]
@@ -685,6 +685,31 @@ func runC17(w *World, r *Report) {
 				gos = append(gos, g)
 			}
 		})
+		// every call is started before the dispatcher waits for anything: the dispatcher itself (not its workers) performs no
+		// channel operation that can block and calls nothing that waits, except through its deferred Wait
+		{
+			blocking := ""
+			instrs(prt, func(in ssa.Instruction) {
+				switch x := in.(type) {
+				case *ssa.Send:
+					blocking = "a channel send"
+				case *ssa.UnOp:
+					if x.Op == token.ARROW {
+						blocking = "a channel receive"
+					}
+				case *ssa.Select:
+					if x.Blocking {
+						blocking = "a blocking select"
+					}
+				case *ssa.Call:
+					switch calleeFullName(x) {
+					case "(*sync.WaitGroup).Wait", "(*sync.Mutex).Lock", "(*sync.Cond).Wait", "time.Sleep":
+						blocking = calleeFullName(x)
+					}
+				}
+			})
+			r.Check(blocking == "", "C17.parallel-protocol", "the dispatcher starts every call without waiting", prt.Pos(), "no blocking operation between the spawns", "parallelRunToolCall performs "+blocking+" while it is still starting calls: the calls behind it (and the inline call 0) do not start until an earlier one returns, so a message whose later calls must finish first — twelve calls released in reverse order — never completes: calls are no longer independent of one another's completion order")
+		}
 		if len(gos) != 1 {
 			r.Fail("C17.parallel-protocol", "parallelRunToolCall spawns workers", prt.Pos(), fmt.Sprintf("expected one go statement, found %d", len(gos)))
 		} else {
